@@ -34,6 +34,7 @@ structure St where
   abs : AArr Elem := fun _ => []     -- the abstract array of C01 (specification oracle)
   es : Nat := 0                      -- element size in bytes (0 = variable length)
   chain : String := ""               -- textual description of the codec chain
+  store : String := ""               -- store kind of the case (`store=` of the cfg line)
 
 def parseCfg (l : Line) : Option (ArrCfg Elem) := do
   let shape ← l.nl "shape"
@@ -91,7 +92,7 @@ def handleCore (st : St) (l : Line) : Option (St × List String) := do
     if l.outcome.startsWith "err-open" then pure ({ cfg := none, st := [] }, ["any"]) else
     let cfg ← parseCfg l
     pure ({ cfg := some cfg, st := [], abs := fun _ => cfg.fill,
-            es := ((l.get "es").bind (·.toNat?)).getD 0, chain := (l.get "chain").getD "" }, ["ok"])
+            es := ((l.get "es").bind (·.toNat?)).getD 0, chain := (l.get "chain").getD "", store := (l.get "store").getD "" }, ["ok"])
   else
     match st.cfg with
     | none => pure (st, ["skip"])
@@ -189,6 +190,14 @@ def handle (st : St) (l : Line) : Option (St × List String × Option String) :=
     let note := match specRead cfg st.abs verb l with
       | some s => if acc == [s] || acc == ["err"] then none else some ("model differs from abstract array: spec=" ++ s)
       | none => none
+    -- object_store / opendal back ends reject zero-length byte ranges (outside the store contract of C08): a read of
+    -- an EMPTY region through a partial decoder may therefore fail there; nothing else is excused
+    let emptyReq := ["r", "rs", "box", "ibox"].any (fun k => match l.get k with
+      | some v => (v.splitOn "|").any (fun one => match one.splitOn "+" with
+          | [_, sh] => (sh.splitOn ",").any (· == "0")
+          | _ => false)
+      | none => false)
+    let acc := if emptyReq && (st.store.startsWith "os_" || st.store.startsWith "od_") && (writeOpOf verb l).isNone then acc ++ ["err"] else acc
     pure ({ st' with abs := abs' }, acc, note)
   | _, _ => pure (st', acc, none)
 
